@@ -4,7 +4,7 @@ import Aergo.Model.Pool
 /-! Model driver for C13: `model-c13 < ops > out`.
 
 Pool session ops (answer = `<result> | <canonical pool state>`):
-  new | put a n id c | rm a id | block new parent chain d=<a,..|-> s=<a:n:b,..|-> | evict <a,..|->
+  new | put a n id c | putn a n id c (sender field is a name; a = verified address) | rm a id | block new parent chain d=<a,..|-> s=<a:n:b,..|-> | evict <a,..|->
   get | exist id | size | unconf a
 Bare list session ops (answer = `<result> | <list state>`):
   lnew n b | lput n id c | lfilter n b | lrm id | lget
@@ -59,10 +59,11 @@ def c13Step (s : DS) (line : String) : DS × String :=
   let bad := (s, "bad-op")
   match words line with
   | ["new"] => ({ s with pool := Pool.init }, "ok | " ++ showPool Pool.init)
-  | ["put", a, n, id, c] =>
+  | [op, a, n, id, c] =>
+    if op != "put" && op != "putn" then bad else
     match a.toNat?, n.toNat?, id.toNat?, c.toNat? with
     | some a, some n, some id, some c =>
-      let (P, r) := s.pool.put ⟨a, n, id, c⟩
+      let (P, r) := s.pool.put ⟨a, n, id, c, op == "putn"⟩
       ({ s with pool := P }, showPutRes r ++ " | " ++ showPool P)
     | _, _, _, _ => bad
   | ["rm", a, id] =>
@@ -106,7 +107,7 @@ def c13Step (s : DS) (line : String) : DS × String :=
   | ["lput", n, id, c] =>
     match n.toNat?, id.toNat?, c.toNat? with
     | some n, some id, some c =>
-      let (L, r) := s.tl.put ⟨0, n, id, c⟩
+      let (L, r) := s.tl.put ⟨0, n, id, c, false⟩
       ({ s with tl := L }, (match r with
         | .ok d => s!"ok {d}" | .error .low => "low" | .error .same => "samenonce") ++ " | " ++ showList L)
     | _, _, _ => bad
